@@ -45,12 +45,12 @@ def parseObs (s : String) : Option Obs :=
 
 structure St where
   nilq   : Bool
-  q      : Q          -- model state
+  q      : QS         -- model state
   omodel : OState     -- oracle state following the model's observations
   oimpl  : OState     -- oracle state following the implementation's observations
 
 def init (fields : List String) : St :=
-  ⟨fields == ["nil"], [], ⟨[], []⟩, ⟨[], []⟩⟩
+  ⟨fields == ["nil"], ⟨[], 0⟩, ⟨[], []⟩, ⟨[], []⟩⟩
 
 def step (st : St) (fields : List String) (impl : String) : St × Reply :=
   match parseOp fields with
@@ -65,8 +65,8 @@ def step (st : St) (fields : List String) (impl : String) : St × Reply :=
         | none => false
       (st, .det ms impl true okI)
     else
-      let (q', out) := Model.C17.step st.q op
-      let mo : Obs := ⟨out, q'⟩
+      let (q', out) := Model.C17.stepS st.q op
+      let mo : Obs := ⟨out, q'.q⟩
       let (okM, om') := holdsStep st.omodel op mo
       let (okI, oi') := match parseObs impl with
         | some io => holdsStep st.oimpl op io
